@@ -452,6 +452,8 @@ def standard_model_phase(ctx: Ctx, translators: list[str], coq_files: list[str],
     hits = ctx.lint()
     for h in hits:
         ctx.broken.append(f"lint:{h}")
+    from harness import fingerprints
+    fingerprints.check(ctx)
     if ok:
         ctx.collect_assumptions(prop_module, prop_file)
     return not ctx.broken
